@@ -62,6 +62,8 @@ class KaryPartition(Partition):
 
         new_nodes = []
         boundary_points = np.linspace(selected_dim[0], selected_dim[1], num=self.K + 1)
+        # when (hi - lo) / K is subnormal its rounding makes np.linspace overshoot the parent
+        boundary_points = np.clip(boundary_points, selected_dim[0], selected_dim[1])
         for i in range(self.K):
             domain = copy.deepcopy(parent_domain)
             domain[dim] = [boundary_points[i], boundary_points[i + 1]]
